@@ -537,6 +537,8 @@ func TestReplay(t *testing.T) {
 		WSCase
 		EncCase
 		TPCase
+		WSMCase
+		DuplexCase
 	}
 	if _, err := vkit.LoadReplay(path, &u); err != nil {
 		t.Fatalf("bad replay file: %v", err)
@@ -552,6 +554,17 @@ func TestReplay(t *testing.T) {
 	case len(u.ToServer)+len(u.ToClient) > 0:
 		if f := runWS(t, u.WSCase); f != nil {
 			vkit.Violation(t, f.key, f.detail, u.WSCase)
+		}
+	case u.WSMCase.WSModule:
+		if f := runWSM(t, u.WSMCase); f != nil {
+			vkit.Violation(t, f.key, f.detail, u.WSMCase)
+		}
+	case u.DuplexCase.Duplex:
+		for i := 0; i < 20; i++ {
+			if f := runDuplex(u.DuplexCase); f != nil {
+				vkit.Violation(t, f.key, f.detail, u.DuplexCase)
+				return
+			}
 		}
 	case u.TPCase.Proto != "":
 		checkTP(t, u.TPCase)
